@@ -68,6 +68,7 @@ func ZZ_C09_append() {
 	cur := vrt.Bytes("cur", n)
 	item := vrt.Bytes("item", vrt.Range("itemlen", 0, 2))
 	st := &zzStore{val: append([]byte{}, cur...)}
+	stored := st.val // the slice the storage hands out (shared with snapshots / transaction layers)
 	err := storageAppend(st, []byte{0x01}, item)
 	vrt.Assert("no_error", err == nil)
 	vrt.Assert("one_put", st.puts == 1)
@@ -81,5 +82,8 @@ func ZZ_C09_append() {
 		want = append([]byte{4}, item...)
 	}
 	vrt.Assert("append_matches_substrate", vrt.BytesEq(st.val, want))
+	// the value obtained from storage must not be modified in place: it may be shared with
+	// other snapshots or an enclosing transaction
+	vrt.Assert("stored_slice_not_mutated", vrt.BytesEq(stored, cur))
 	vrt.Reach("end")
 }
